@@ -8,12 +8,10 @@
    the real std::shuffle and satisfies the premise for *every* oracle (C12_shuffle_oracle_permutes), so all
    theorems below hold unconditionally for the extracted code. *)
 From Coq Require Import List ZArith Bool Permutation Sorted.
-From LN Require Import C12_Defs C12_Proofs.
+From Coq Require Import Reals Lra.
+From LN Require Import C12_Defs C12_Proofs C12_Statements.
 Import ListNotations.
 Local Open Scope Z_scope.
-
-Definition permutes (shuffle : Z -> nat -> list Z -> list Z) : Prop :=
-  forall s c l, Permutation (shuffle s c l) l.
 
 (* ---- k-fold ------------------------------------------------------------------------------------ *)
 
@@ -43,11 +41,7 @@ Theorem C12_kfold_sizes : forall shuffle, permutes shuffle -> forall seed folds 
   map (fun p => zlen (snd p)) (kfold shuffle seed folds l) =
   map (fun f => if f + 1 <? folds then zlen l / folds else zlen l / folds + zlen l mod folds) (zrange folds) /\
   Forall (fun p => zlen l / folds <= zlen (snd p) < zlen l / folds + folds) (kfold shuffle seed folds l).
-Proof.
-  intros shuffle H seed folds l Hf. split.
-  - exact (p_kfold_valid_sizes shuffle H seed folds l Hf).
-  - exact (p_kfold_valid_sizes_close shuffle H seed folds l Hf).
-Qed.
+Proof. exact s_kfold_sizes. Qed.
 Print Assumptions C12_kfold_sizes.
 
 (* the three Eigen segment copies of a fold are in bounds, size-consistent and tile `train` exactly
@@ -67,10 +61,7 @@ Theorem C12_random_pair : forall shuffle, permutes shuffle -> forall seed folds 
   NoDup l -> 0 <= perc <= 100 -> In (tr, va) (random_split shuffle seed folds perc l) ->
   Permutation (tr ++ va) l /\ (forall x, In x tr -> ~ In x va) /\
   StronglySorted Z.le tr /\ StronglySorted Z.le va.
-Proof.
-  intros shuffle H seed folds perc l tr va HN Hp Hin.
-  exact (proj1 (p_random_pair shuffle H seed folds perc l tr va HN Hp Hin)).
-Qed.
+Proof. exact s_random_pair. Qed.
 Print Assumptions C12_random_pair.
 
 (* the training part has round(perc*n/100) elements (halves up), the validation part the rest *)
@@ -79,12 +70,7 @@ Theorem C12_random_size : forall shuffle, permutes shuffle -> forall seed folds 
   let t := zlen tr in
   t = (perc * zlen l + 50) / 100 /\ zlen va = zlen l - t /\
   100 * t <= perc * zlen l + 50 < 100 * t + 100 /\ 0 <= t <= zlen l.
-Proof.
-  intros shuffle H seed folds perc l tr va HN Hp Hin.
-  destruct (p_random_pair shuffle H seed folds perc l tr va HN Hp Hin) as (_ & Ht & Hv).
-  cbv zeta. rewrite Ht, Hv. unfold rs_ts. repeat split; try reflexivity;
-    try apply (rs_ts_round (zlen l) perc); try apply (rs_ts_bounds (zlen l) perc (zlen_nonneg l) Hp).
-Qed.
+Proof. exact s_random_size. Qed.
 Print Assumptions C12_random_size.
 
 Theorem C12_random_layout : forall n folds fold perc,
@@ -131,11 +117,7 @@ Theorem C12_weighted_support : forall picks l wpos,
   (forall x, In x (sample_with picks l) ->
      exists i, (i < length l)%nat /\ nth i l 0 = x /\ nth i wpos false = true) /\
   (forall j, (j < length l)%nat -> nth j wpos false = false -> ~ In (nth j l 0) (sample_with picks l)).
-Proof.
-  intros picks l wpos HN HL HW. split.
-  - exact (p_sample_weighted picks l wpos HL HW).
-  - intros j. exact (p_sample_weighted_support picks l wpos j HN HL HW).
-Qed.
+Proof. exact s_weighted_support. Qed.
 Print Assumptions C12_weighted_support.
 
 (* ---- the checkers that the driver applies to the implementation's output are sound ---------------------- *)
@@ -144,6 +126,16 @@ Theorem C12_checker_sound : forall l tr va, split_okb l tr va = true ->
   StronglySorted Z.le tr /\ StronglySorted Z.le va.
 Proof. exact split_okb_sound. Qed.
 Print Assumptions C12_checker_sound.
+
+(* ---- sample_from_ball (over R): x = x0 + radius * z * u / |u|_2 with z in [0,1] and u <> 0 lies in the ball,
+        at distance exactly radius * z from the centre ------------------------------------------------------- *)
+Theorem C12_ball : forall (x0 u : list R) (radius z : R),
+  length x0 = length u -> (0 < radius)%R -> (0 <= z <= 1)%R -> (0 < sumsq u)%R ->
+  length (sample_from_ball x0 u radius z) = length x0 /\
+  norm2 (vsub (sample_from_ball x0 u radius z) x0) = (radius * z)%R /\
+  (norm2 (vsub (sample_from_ball x0 u radius z) x0) <= radius)%R.
+Proof. exact p_ball. Qed.
+Print Assumptions C12_ball.
 
 (* ---- non-vacuity ------------------------------------------------------------------------------------------ *)
 (* a concrete oracle (a rotation for call 0, a reversal afterwards), 7 non-contiguous indices, 3 folds *)
@@ -177,3 +169,13 @@ Example C12_nonvacuous_samplers :
   picks_weightedb [true; false; true; true; false; false; true] [6; 0; 0; 3] = true /\
   split_okb ex_l [3; 5; 10; 61; 900] [42; 77] = true /\ split_okb ex_l [3; 5; 10; 61; 900] [42; 61] = false.
 Proof. vm_compute. repeat split; reflexivity. Qed.
+
+Example C12_nonvacuous_ball :
+  (length [1; 2] = length [3; 4] /\ 0 < 2 /\ 0 <= 1 / 2 <= 1 /\ 0 < sumsq [3; 4] /\
+   norm2 (vsub (sample_from_ball [1; 2] [3; 4] 2 (1 / 2)) [1; 2]) = 1)%R.
+Proof.
+  assert (H : (length [1; 2] = length [3; 4] /\ 0 < 2 /\ 0 <= 1 / 2 <= 1 /\ 0 < sumsq [3; 4])%R)
+    by (cbn; repeat split; try reflexivity; lra).
+  destruct H as (H1 & H2 & H3 & H4). repeat split; try assumption; try lra.
+  destruct (C12_ball [1; 2]%R [3; 4]%R 2%R (1 / 2)%R H1 H2 H3 H4) as (_ & E & _). rewrite E. lra.
+Qed.
